@@ -132,7 +132,8 @@ impl<T> Route<T> {
 
         for header in self.headers() {
             for request_header in &request.headers {
-                if request_header.name != header.name {
+                // header names are case-insensitive, as in the header matcher
+                if !request_header.name.eq_ignore_ascii_case(header.name.as_str()) {
                     continue;
                 }
 
